@@ -199,6 +199,32 @@ def check(case, M):
         tags.append("has-propagated-exception")
     if any(op[0] == "clear" for op in case["ops"]):
         tags.append("has-clear")
+    # ---- function-valued inputs (oracle only: the Lean value model has no functions): a history of evaluations of
+    # programs whose head is a function-typed variable, on ONE evaluator with its cache on, with different functions
+    # as inputs — the outcome must be the direct application, whatever was evaluated before
+    if not failures:
+        import random as _random
+        from synth.syntax import DSL as _DSL, auto_type as _auto_type
+        hr = _random.Random(json.dumps([case["inputs"], len(case["ops"])]))
+        hdsl = _DSL(_auto_type({"+": "int -> int -> int", "1": "int", "2": "int"}))
+        hev = DSLEvaluator(hdsl.instantiate_semantics({"+": lambda a: lambda b: a + b, "1": 1, "2": 2}))
+        htr = _auto_type("(int -> int) -> int")
+        texts = ["(var0 1)", "(+ (var0 1) 1)", "(var0 (var0 2))", "(+ (var0 2) (var0 1))", "(+ 1 2)"]
+        hps = [hdsl.parse_program(t, htr) for t in texts]
+        refs = [lambda f: f(1), lambda f: f(1) + 1, lambda f: f(f(2)), lambda f: f(2) + f(1), lambda f: 3]
+        a1, b1, a2, b2 = hr.randint(2, 9), hr.randint(-5, 5), hr.randint(-9, -2), hr.randint(6, 12)
+        funs = [lambda x: a1 * x + b1, lambda x: a2 * x + b2, lambda x: x * x - a1]
+        for _ in range(12):
+            k, fi = hr.randrange(len(hps)), hr.randrange(len(funs))
+            try:
+                got = hev.eval(hps[k], [funs[fi]])
+            except Exception as e:  # noqa
+                got = type(e).__name__
+            if got != refs[k](funs[fi]):
+                failures.append({"kind": "oracle", "what": "evaluation with a function-valued input depends on earlier evaluations (cache shared across inputs)",
+                                 "detail": f"{texts[k]} on function #{fi}: got {got}, direct application gives {refs[k](funs[fi])}"})
+                break
+        tags.append("function-valued-inputs-history")
     return {"key": json.dumps([case["dsl"], case["inputs"], skips, [(G.term_str(pool[o[1]]), o[2]) if o[0] == "eval" else "clear" for o in case["ops"]]]),
             "nontrivial": hit and len(evals) >= 2, "tags": tags, "failures": failures,
             "sample": {"dsl": case["dsl"], "skips": skips, "inputs": case["inputs"],
